@@ -4,6 +4,7 @@ import Andes.Model.IslandDriver
 import Andes.Model.SolverCacheDriver
 import Andes.Model.DiscreteDriver
 import Andes.Model.NewtonDriver
+import Andes.Model.IoDriver
 /-! One case per input line, one canonical output line; the first word selects the model. -/
 
 def handle (line : String) : String :=
@@ -16,6 +17,7 @@ def handle (line : String) : String :=
   | "cli" :: args => Andes.Newton.handleCli args
   | "disc" :: op :: args => Andes.Discrete.handleDisc op args
   | "slv" :: args => Andes.SolverCache.handleSlv args | "pfs" :: args => Andes.SolverCache.handlePfs args | "tdi" :: args => Andes.SolverCache.handleTdi args
+  | "ios" :: args => Andes.Io.handleIos args | "iol" :: args => Andes.Io.handleIol args | "mpb" :: args => Andes.Mpc.handleMpb args | "mpg" :: args => Andes.Mpc.handleMpg args | "mpl" :: args => Andes.Mpc.handleMpl args | "mxl" :: args => Andes.Mpc.handleMxl args | "mxp" :: args => Andes.Mpc.handleMxp args | "rwl" :: args => Andes.Mpc.handleRwl args | "rwx" :: args => Andes.Mpc.handleRwx args | "rw3" :: args => Andes.Mpc.handleRw3 args
   | "island" :: args => Andes.Island.handleIsland args
   | _ => "bad-op"
 
